@@ -628,3 +628,84 @@ def same_bool_function(atoms, table, want_atoms, fn):
         if out != {exp}:
             return False, f"for {', '.join(k + '=' + str(x).lower() for k, x in sorted(v.items()))} the result is {sorted(map(str, out))}, expected {exp}"
     return True, f"equals the documented function of {sorted(atoms)} on all {len(table)} valuations"
+
+
+class Unevaluable(Exception):
+    pass
+
+
+def term_eval(e, leaf):
+    """Value of an arithmetic expression tree under an assignment of its leaves: `leaf(e)` returns an int for a
+    sub-term it recognises as a variable (or None).  Supported: integer constants, casts, + - * / %, min / max,
+    div_ceil, saturating/checked/wrapping add/sub/mul, comparisons (0/1).  Anything else raises Unevaluable.
+    This evaluates a *term extracted from MIR*, not remoc code: it is the decision procedure for equivalence of two
+    small arithmetic terms over a finite grid."""
+    e = mir.strip_casts(e)
+    v = leaf(e)
+    if v is not None:
+        return v
+    c = const_value(e)
+    if c is not None:
+        return c
+    if not isinstance(e, tuple) or not e:
+        raise Unevaluable(str(e))
+    if e[0] == "var" and len(e) > 3 and len(e[3]) == 1 and not e[2]:
+        return term_eval(e[3][0], leaf)
+    if e[0] in ("try",):
+        return term_eval(e[1], leaf)
+    if e[0] == "bin":
+        a, b_ = term_eval(e[2], leaf), term_eval(e[3], leaf)
+        op = e[1]
+        if op in ("Add", "AddWithOverflow", "AddUnchecked"):
+            return a + b_
+        if op in ("Sub", "SubWithOverflow", "SubUnchecked"):
+            if a - b_ < 0:
+                raise Unevaluable("underflow")
+            return a - b_
+        if op in ("Mul", "MulWithOverflow", "MulUnchecked"):
+            return a * b_
+        if op == "Div":
+            if b_ == 0:
+                raise Unevaluable("div by zero")
+            return a // b_
+        if op == "Rem":
+            if b_ == 0:
+                raise Unevaluable("rem by zero")
+            return a % b_
+        if op in ("Lt", "Le", "Gt", "Ge", "Eq", "Ne"):
+            return int({"Lt": a < b_, "Le": a <= b_, "Gt": a > b_, "Ge": a >= b_, "Eq": a == b_, "Ne": a != b_}[op])
+        raise Unevaluable(op)
+    if e[0] == "proj" and e[2] == ("0",):
+        return term_eval(e[1], leaf)     # (value, overflow flag).0 of a checked operation
+    if e[0] == "call":
+        n = e[1].split("::")[-1]
+        args = [term_eval(a, leaf) for a in e[2]] if n in ("min", "max", "div_ceil", "saturating_sub", "saturating_add",
+                                                          "wrapping_add", "wrapping_sub", "checked_add", "checked_sub",
+                                                          "saturating_mul", "unwrap", "next_multiple_of") else None
+        if args is None:
+            raise Unevaluable(e[1])
+        if n == "min":
+            return min(args)
+        if n == "max":
+            return max(args)
+        if n == "div_ceil":
+            if args[1] == 0:
+                raise Unevaluable("div by zero")
+            return -(-args[0] // args[1])
+        if n == "next_multiple_of":
+            if args[1] == 0:
+                raise Unevaluable("div by zero")
+            return -(-args[0] // args[1]) * args[1]
+        if n == "saturating_sub":
+            return max(0, args[0] - args[1])
+        if n in ("saturating_add", "wrapping_add", "checked_add"):
+            return args[0] + args[1]
+        if n in ("wrapping_sub", "checked_sub"):
+            if args[0] - args[1] < 0:
+                raise Unevaluable("underflow")
+            return args[0] - args[1]
+        if n == "saturating_mul":
+            return args[0] * args[1]
+        if n == "unwrap":
+            return args[0]
+    raise Unevaluable(mir.show(e)[:60])
